@@ -42,6 +42,9 @@ RULE_DOC = {
     'R26': '`io::Error::new(io::ErrorKind::InvalidData, "..")` -> `io_invalid_data()` (opaque io::Error; only Ok/Err is observed)',
     'R30': '`let V = E.iter().map(|r| F).sum();` -> `let mut V: usize = 0; for r in E.iter() { V += F; }` (Iterator::sum over usize: the additions become overflow obligations)',
     'R31': 'std::io::Cursor over a byte slice: `io::Cursor::new(B)` -> `ByteCursor::new(B)`, `u64::from_le_bytes(buf)` (buf: [u8; 8]) -> `le_u64_of(buf)`; ByteCursor::read_exact is ASSUMED to behave as Cursor<&[u8]>::read_exact (8 bytes copied and consumed, or Err with nothing consumed)',
+    'R36': '`let (A, B): (Vec<_>, Vec<_>) = X.into_iter().partition(|p| P);` -> `let mut A = Vec::new(); let mut B = Vec::new(); for p__ in X { let keep__ = { let p = &p__; P }; if keep__ { A.push(p__); } else { B.push(p__); } }` (std definition of partition; P verbatim)',
+    'R37': '`for V in A.into_iter().chain(B) {` -> `let chained__ = vec_concat(A, B); for V in chained__ {` (std: chain yields all of A, then all of B; vec_concat is a VERIFIED helper: `a.append(&mut b)`)',
+    'R35': '`M.entry(K).or_insert_with(F).m(ARGS);` -> `entry_or_insert_with_new(&mut M, K).m(ARGS);` - the entry chain is outlined into a helper (body: `m.entry(k).or_insert_with(F)`) whose contract is ASSUMED: the value under K by mutable reference, freshly built by F if absent, other keys untouched',
     'R34': '`for X in M.values() {` -> `for (k__r, X) in M.iter() {` (std: values() is iter() projected to the value)',
     'R32': '`for X in M.values_mut() {` -> `let keys__N = map_keys(&M); for i__N in 0..keys__N.len() { let k__ = keys__N[i__N]; let X = M.get_mut(&k__).unwrap();` - values_mut visits every entry once; map_keys (body: `m.keys().copied().collect()`) is ASSUMED to list every key exactly once',
     'R33': '`M.retain(|_, X| P);` -> `let rkeys__N = map_keys(&M); for j__N in 0..rkeys__N.len() { let k__ = rkeys__N[j__N]; let keep__ = { let X = M.get(&k__).unwrap(); P }; if !keep__ { M.remove(&k__); } }` (std: retain removes exactly the entries for which the predicate is false; P verbatim, X bound immutably)',
@@ -317,6 +320,20 @@ class Piece:
         self.resub('R31', r'io::Cursor::new\(', 'ByteCursor::new(')
         self.resub('R31', r'u64::from_le_bytes\((\w+)\)', r'le_u64_of(\1)')
         return self
+
+    def R36(self):
+        pat = r'([ \t]*)let \((\w+), (\w+)\): \(Vec<_>, Vec<_>\) = (\w+)\s*\.into_iter\(\)\s*\.partition\(\|(\w+)\|\s*([^;]+?)\);'
+        def rep(m):
+            ind, a, b, x, p, body = m.groups()
+            return ('%slet mut %s = Vec::new(); let mut %s = Vec::new();\n%sfor p__ in %s { let keep__ = { let %s = &p__; %s }; if keep__ { %s.push(p__); } else { %s.push(p__); } }'
+                    % (ind, a, b, ind, x, p, body.strip(), a, b))
+        return self.resub_opt('R36', pat, rep)
+
+    def R37(self):
+        return self.resub_opt('R37', r'([ \t]*)for (\w+) in (\w+)\.into_iter\(\)\.chain\((\w+)\) \{', lambda m: '%slet chained__ = vec_concat(%s, %s);\n%sfor %s in chained__ {' % (m.group(1), m.group(3), m.group(4), m.group(1), m.group(2)))
+
+    def R35(self, ctor):
+        return self.resub('R35', r'([\w\.]+)\s*\.entry\((\w+)\)\s*\.or_insert_with\(%s\)\s*\.' % re.escape(ctor), r'entry_or_insert_with_new(&mut \1, \2).')
 
     def R34(self):
         return self.resub('R34', r'for (\w+) in ([\w\.]+)\.values\(\) \{', r'for (k__r, \1) in \2.iter() {')
